@@ -1,71 +1,1052 @@
-use arrow_array::{Int64Array, RecordBatch, StringArray, TimestampNanosecondArray};
-use arrow_schema::{DataType, Field, Schema, TimeUnit};
+//! csv-dedup — correspondence + oracle for C15 (dual-write routes each row to
+//! exactly one new shard; split-time reads stay exact).
+//!
+//! Three families of cases, all derived from the one seed:
+//!  D  `dedup_batches` (through the verif_hooks wrapper) on generated result
+//!     batches — several series per (timestamp, metric), exact duplicates, NULL
+//!     timestamps / metrics / labels, batches lacking or mis-naming the gating
+//!     columns, four physical timestamp types and four string encodings —
+//!     against the extracted model and an independent reference.
+//!  R  a real `Ingester` (both metadata backends) executing histories of
+//!     start_split / update_split_progress / complete_split / write / flush;
+//!     every registered chunk is read back (Parquet) and compared per shard path
+//!     with the model's routing; oracle: rows under the first new shard are
+//!     exactly the rows below the split point, under the second the rows at or
+//!     above it, the old shard holds every written row.
+//!  E  end to end: the same history on a pipeline with the split planted and on
+//!     one without, `QueryNode::query` (raw selects, projections, COUNT, SUM,
+//!     GROUP BY) on both; model vs implementation, and the oracle "answer during
+//!     the split == answer without split"; violating runs are classified with
+//!     the extracted `known_class`.
+use arrow::array::{Array, ArrayRef, AsArray, DictionaryArray, Int64Array, LargeStringArray, RecordBatch, StringArray, StringViewArray, TimestampMicrosecondArray, TimestampNanosecondArray};
+use arrow::datatypes::{DataType, Field, Int32Type, Schema, TimeUnit};
 use cardinalsin::ingester::{Ingester, IngesterConfig};
-use cardinalsin::metadata::{LocalMetadataClient, MetadataClient};
+use cardinalsin::metadata::{LocalMetadataClient, MetadataClient, ObjectStoreMetadataClient, ObjectStoreMetadataConfig};
 use cardinalsin::query::{QueryConfig, QueryNode};
 use cardinalsin::schema::MetricSchema;
 use cardinalsin::sharding::{ShardKey, SplitPhase};
 use cardinalsin::StorageConfig;
+use csv_common::{catch, ddmin, Args, Model, Report, Rng};
 use object_store::memory::InMemory;
+use object_store::ObjectStore;
+use serde_json::{json, Value};
+use std::collections::{BTreeMap, HashSet};
+use std::panic::AssertUnwindSafe;
 use std::sync::Arc;
 
-fn batch(ts: Vec<i64>, m: Vec<&str>, h: Vec<&str>, v: Vec<i64>) -> RecordBatch {
-    let schema = Arc::new(Schema::new(vec![
-        Field::new("timestamp", DataType::Int64, false),
+const NULL_TOKEN: i128 = 1i128 << 63; // SQL NULL of an aggregate (the model's NULL_TOKEN)
+const NULL_CELL: i128 = -1; // NULL label / value cell (never generated as a value)
+
+// ------------------------------------------------------------------ rows ----
+#[derive(Clone, Debug, PartialEq, Eq, Hash, PartialOrd, Ord)]
+struct Row {
+    ts: Option<i64>,
+    metric: Option<u64>,
+    rest: Vec<i128>,
+}
+
+fn show_row(r: &Row) -> String {
+    format!(
+        "{},{},{}",
+        r.ts.map(|t| t.to_string()).unwrap_or_else(|| "n".into()),
+        r.metric.map(|m| m.to_string()).unwrap_or_else(|| "n".into()),
+        if r.rest.is_empty() { "-".to_string() } else { r.rest.iter().map(|v| v.to_string()).collect::<Vec<_>>().join(":") }
+    )
+}
+fn show_rows_sorted(rows: &[Row]) -> String {
+    let mut v: Vec<String> = rows.iter().map(show_row).collect();
+    v.sort();
+    v.join(";")
+}
+
+fn metric_name(id: u64) -> String {
+    if id == 0 { String::new() } else { format!("m{}", id) }
+}
+fn label_name(prefix: char, id: i128) -> String {
+    format!("{}{}", prefix, id)
+}
+fn parse_name(s: &str) -> i128 {
+    if s.is_empty() { 0 } else { s[1..].parse::<i128>().unwrap_or(-7) }
+}
+
+/// Canonical rows of any record batch: `timestamp` -> ts, `metric_name` ->
+/// metric, every other column (schema order) -> one token.
+fn canon_rows(b: &RecordBatch) -> (bool, bool, Vec<Row>) {
+    let n = b.num_rows();
+    let schema = b.schema();
+    let mut has_ts = false;
+    let mut has_m = false;
+    let mut rows: Vec<Row> = (0..n).map(|_| Row { ts: None, metric: None, rest: vec![] }).collect();
+    for (ci, f) in schema.fields().iter().enumerate() {
+        let col = b.column(ci);
+        let stringy = matches!(f.data_type(), DataType::Utf8 | DataType::LargeUtf8 | DataType::Utf8View | DataType::Dictionary(_, _));
+        let toks: Vec<Option<i128>> = if stringy {
+            let c = arrow::compute::cast(col, &DataType::Utf8).expect("cast to utf8");
+            let a = c.as_string::<i32>();
+            (0..n).map(|i| if a.is_null(i) { None } else { Some(parse_name(a.value(i))) }).collect()
+        } else {
+            let c = arrow::compute::cast(col, &DataType::Int64).expect("cast to int64");
+            let a = c.as_primitive::<arrow::datatypes::Int64Type>();
+            (0..n).map(|i| if a.is_null(i) { None } else { Some(a.value(i) as i128) }).collect()
+        };
+        if f.name() == "timestamp" && !has_ts {
+            has_ts = true;
+            for (i, t) in toks.iter().enumerate() {
+                rows[i].ts = t.map(|v| v as i64);
+            }
+        } else if f.name() == "metric_name" && !has_m {
+            has_m = true;
+            for (i, t) in toks.iter().enumerate() {
+                rows[i].metric = t.map(|v| v as u64);
+            }
+        } else {
+            let agg = f.name() == "s";
+            for (i, t) in toks.iter().enumerate() {
+                rows[i].rest.push(t.unwrap_or(if agg { NULL_TOKEN } else { NULL_CELL }));
+            }
+        }
+    }
+    (has_ts, has_m, rows)
+}
+
+fn show_batch(b: &RecordBatch) -> String {
+    let (t, m, rows) = canon_rows(b);
+    let mut parts = vec![format!("{}{}", t as u8, m as u8)];
+    parts.extend(rows.iter().map(show_row));
+    parts.join(";")
+}
+
+// ---------------------------------------------------- family D: dedup ----
+#[derive(Clone, Copy, Debug)]
+enum TsType { Int64, Nanos, NanosUtc, Micros }
+#[derive(Clone, Copy, Debug)]
+enum StrType { Utf8, View, Large, Dict }
+
+#[derive(Clone, Debug)]
+struct DBatch {
+    ts_name: &'static str,     // "timestamp" or a name that is not recognised
+    metric_name: &'static str, // "metric_name" or a name that is not recognised
+    drop_ts: bool,
+    drop_metric: bool,
+    rows: Vec<(Option<i64>, Option<u64>, Option<i128>, Option<i128>)>, // ts, metric, host, value
+}
+#[derive(Clone, Debug)]
+struct DCase {
+    ts_type: TsType,
+    str_type: StrType,
+    batches: Vec<DBatch>,
+}
+
+fn str_array(t: StrType, vals: Vec<Option<String>>) -> (DataType, ArrayRef) {
+    match t {
+        StrType::Utf8 => (DataType::Utf8, Arc::new(StringArray::from(vals)) as ArrayRef),
+        StrType::View => (DataType::Utf8View, Arc::new(StringViewArray::from(vals)) as ArrayRef),
+        StrType::Large => (DataType::LargeUtf8, Arc::new(LargeStringArray::from(vals)) as ArrayRef),
+        StrType::Dict => {
+            let d: DictionaryArray<Int32Type> = vals.iter().map(|v| v.as_deref()).collect();
+            (d.data_type().clone(), Arc::new(d) as ArrayRef)
+        }
+    }
+}
+fn ts_array(t: TsType, vals: Vec<Option<i64>>) -> (DataType, ArrayRef) {
+    match t {
+        TsType::Int64 => (DataType::Int64, Arc::new(Int64Array::from(vals)) as ArrayRef),
+        TsType::Nanos => (DataType::Timestamp(TimeUnit::Nanosecond, None), Arc::new(TimestampNanosecondArray::from(vals)) as ArrayRef),
+        TsType::NanosUtc => (
+            DataType::Timestamp(TimeUnit::Nanosecond, Some("UTC".into())),
+            Arc::new(TimestampNanosecondArray::from(vals).with_timezone("UTC")) as ArrayRef,
+        ),
+        TsType::Micros => (DataType::Timestamp(TimeUnit::Microsecond, None), Arc::new(TimestampMicrosecondArray::from(vals)) as ArrayRef),
+    }
+}
+
+fn build_dbatch(c: &DCase, b: &DBatch) -> RecordBatch {
+    let mut fields = Vec::new();
+    let mut cols: Vec<ArrayRef> = Vec::new();
+    if !b.drop_ts {
+        let (dt, a) = ts_array(c.ts_type, b.rows.iter().map(|r| r.0).collect());
+        fields.push(Field::new(b.ts_name, dt, true));
+        cols.push(a);
+    }
+    if !b.drop_metric {
+        let (dt, a) = str_array(c.str_type, b.rows.iter().map(|r| r.1.map(metric_name)).collect());
+        fields.push(Field::new(b.metric_name, dt, true));
+        cols.push(a);
+    }
+    let (dt, a) = str_array(c.str_type, b.rows.iter().map(|r| r.2.map(|h| label_name('h', h))).collect());
+    fields.push(Field::new("host", dt, true));
+    cols.push(a);
+    fields.push(Field::new("value_i64", DataType::Int64, true));
+    cols.push(Arc::new(Int64Array::from(b.rows.iter().map(|r| r.3.map(|v| v as i64)).collect::<Vec<_>>())));
+    RecordBatch::try_new(Arc::new(Schema::new(fields)), cols).expect("batch")
+}
+
+fn gen_dcase(rng: &mut Rng, report: &mut Report) -> DCase {
+    let ts_type = *rng.pick(&[TsType::Int64, TsType::Int64, TsType::Nanos, TsType::NanosUtc, TsType::Micros]);
+    let str_type = *rng.pick(&[StrType::Utf8, StrType::View, StrType::View, StrType::Large, StrType::Dict]);
+    report.bump(&format!("D.ts_type.{:?}", ts_type));
+    report.bump(&format!("D.str_type.{:?}", str_type));
+    let nb = rng.range_usize(1, 4);
+    let nts = rng.range_i64(1, 3);
+    let nmet = rng.range_i64(1, 3) as u64;
+    let mut pool: Vec<(Option<i64>, Option<u64>, Option<i128>, Option<i128>)> = Vec::new();
+    let mut batches = Vec::new();
+    for _ in 0..nb {
+        let nr = if rng.chance(1, 10) { 0 } else { rng.range_usize(1, 6) };
+        let mut rows = Vec::new();
+        for _ in 0..nr {
+            let r = if !pool.is_empty() && rng.chance(2, 5) {
+                report.bump("D.row.exact_copy");
+                pool[rng.below(pool.len() as u64) as usize]
+            } else {
+                let ts = if rng.chance(1, 12) { report.bump("D.row.null_ts"); None } else { Some(100 + rng.range_i64(0, nts - 1)) };
+                // metric id 0 is the empty string: distinct from NULL
+                let m = if rng.chance(1, 15) { report.bump("D.row.null_metric"); None } else { Some(rng.below(nmet + 1)) };
+                let h = if rng.chance(1, 12) { None } else { Some(rng.range_i64(1, 2) as i128) };
+                let v = if rng.chance(1, 12) { None } else { Some(rng.range_i64(1, 2) as i128) };
+                (ts, m, h, v)
+            };
+            pool.push(r);
+            rows.push(r);
+        }
+        let mut b = DBatch { ts_name: "timestamp", metric_name: "metric_name", drop_ts: false, drop_metric: false, rows };
+        match rng.below(14) {
+            0 => { b.drop_ts = true; report.bump("D.batch.no_timestamp"); }
+            1 => { b.drop_metric = true; report.bump("D.batch.no_metric"); }
+            2 => { b.ts_name = "time"; report.bump("D.batch.misnamed_timestamp"); }
+            3 => { b.metric_name = "metric"; report.bump("D.batch.misnamed_metric"); }
+            4 => { b.ts_name = "Timestamp"; report.bump("D.batch.misnamed_timestamp"); }
+            _ => {}
+        }
+        batches.push(b);
+    }
+    DCase { ts_type, str_type, batches }
+}
+
+/// reference: first occurrence of every whole row with a non-NULL timestamp,
+/// across the batches that carry both gating columns; everything else as is.
+fn dedup_reference(inputs: &[RecordBatch]) -> Vec<String> {
+    let mut seen: HashSet<String> = HashSet::new();
+    let mut out = Vec::new();
+    for b in inputs {
+        let (t, m, rows) = canon_rows(b);
+        if !(t && m) {
+            out.push(show_batch(b));
+            continue;
+        }
+        let mut kept = Vec::new();
+        for r in &rows {
+            if r.ts.is_none() || seen.insert(show_row(r)) {
+                kept.push(show_row(r));
+            }
+        }
+        if kept.len() == rows.len() || !kept.is_empty() {
+            let mut parts = vec!["11".to_string()];
+            parts.extend(kept);
+            out.push(parts.join(";"));
+        }
+    }
+    out
+}
+
+fn run_dcase(c: &DCase, keep: Option<&[usize]>) -> (String, String, Vec<String>) {
+    let idx: Vec<usize> = keep.map(|k| k.to_vec()).unwrap_or_else(|| (0..c.batches.len()).collect());
+    let inputs: Vec<RecordBatch> = idx.iter().map(|&i| build_dbatch(c, &c.batches[i])).collect();
+    let mut line = vec!["D".to_string()];
+    line.extend(inputs.iter().map(show_batch));
+    let line = line.join("|");
+    let reference = dedup_reference(&inputs);
+    let res = catch(AssertUnwindSafe(|| cardinalsin::query::verif::dedup_batches(inputs.clone())));
+    let mut bad = Vec::new();
+    let out = match res {
+        Ok(Ok(bs)) => {
+            let got: Vec<String> = bs.iter().map(show_batch).collect();
+            if got != reference {
+                bad.push(format!("dedup_batches returned {:?}, exact de-duplication is {:?}", got, reference));
+            }
+            let mut parts = vec!["R".to_string()];
+            parts.extend(got);
+            parts.join("|")
+        }
+        Ok(Err(e)) => { bad.push(format!("dedup_batches failed: {}", e)); "ERR".to_string() }
+        Err(p) => { bad.push(format!("dedup_batches panicked: {}", p)); "PANIC".to_string() }
+    };
+    (line, out, bad)
+}
+
+// ------------------------------------------- families R and E: histories ----
+#[derive(Clone, Debug, PartialEq)]
+enum Op {
+    S { sid: u32, news: Vec<u32>, point: Vec<u8> },
+    P { sid: u32, phase: &'static str },
+    C { sid: u32 },
+    W { sid: u32, schema: u32, rows: Vec<Row> },
+    F,
+    Q { lo: i64, hi: i64, metric: Option<u64>, post: String },
+    X,
+}
+
+#[derive(Clone, Debug)]
+struct HCase {
+    flush_rows: usize,
+    object_store_backend: bool,
+    base: i64,
+    shard_metric: BTreeMap<u32, u64>, // logical shard id -> metric of the first row of its batches
+    ops: Vec<Op>,
+}
+
+fn ts_kind(schema: u32) -> &'static str {
+    match schema { 1 | 3 => "i", 2 => "n", _ => "o" }
+}
+
+fn encode_op(o: &Op) -> String {
+    let list = |v: &[String]| if v.is_empty() { "-".to_string() } else { v.join(",") };
+    match o {
+        Op::S { sid, news, point } => format!(
+            "S {} {} {}", sid,
+            list(&news.iter().map(|n| n.to_string()).collect::<Vec<_>>()),
+            list(&point.iter().map(|b| b.to_string()).collect::<Vec<_>>())),
+        Op::P { sid, phase } => format!("P {} {}", sid, phase),
+        Op::C { sid } => format!("C {}", sid),
+        Op::W { sid, schema, rows } => format!("W {} {} {} {}", sid, schema, ts_kind(*schema), rows.iter().map(show_row).collect::<Vec<_>>().join(";")),
+        Op::F => "F".to_string(),
+        Op::Q { lo, hi, metric, post } => format!("Q {} {} {} {}", lo, hi, metric.map(|m| m.to_string()).unwrap_or_else(|| "-".into()), post),
+        Op::X => "X".to_string(),
+    }
+}
+fn encode_h(c: &HCase, ops: &[Op]) -> String {
+    let mut v = vec!["H".to_string(), c.flush_rows.to_string()];
+    v.extend(ops.iter().map(encode_op));
+    v.join("|")
+}
+
+fn ingest_batch(schema: u32, rows: &[Row]) -> RecordBatch {
+    let ts: Vec<i64> = rows.iter().map(|r| r.ts.unwrap()).collect();
+    let (ts_dt, ts_arr): (DataType, ArrayRef) = match schema {
+        2 => (DataType::Timestamp(TimeUnit::Nanosecond, Some("UTC".into())), Arc::new(TimestampNanosecondArray::from(ts).with_timezone("UTC"))),
+        4 => (DataType::Timestamp(TimeUnit::Microsecond, None), Arc::new(TimestampMicrosecondArray::from(ts))),
+        _ => (DataType::Int64, Arc::new(Int64Array::from(ts))),
+    };
+    let mut fields = vec![
+        Field::new("timestamp", ts_dt, false),
         Field::new("metric_name", DataType::Utf8, false),
         Field::new("host", DataType::Utf8, false),
         Field::new("value_i64", DataType::Int64, false),
-    ]));
-    RecordBatch::try_new(schema, vec![Arc::new(Int64Array::from(ts)), Arc::new(StringArray::from(m)), Arc::new(StringArray::from(h)), Arc::new(Int64Array::from(v))]).unwrap()
+    ];
+    let mut cols: Vec<ArrayRef> = vec![
+        ts_arr,
+        Arc::new(StringArray::from(rows.iter().map(|r| metric_name(r.metric.unwrap())).collect::<Vec<_>>())),
+        Arc::new(StringArray::from(rows.iter().map(|r| label_name('h', r.rest[0])).collect::<Vec<_>>())),
+        Arc::new(Int64Array::from(rows.iter().map(|r| r.rest[1] as i64).collect::<Vec<_>>())),
+    ];
+    if schema == 3 {
+        fields.push(Field::new("region", DataType::Utf8, false));
+        cols.push(Arc::new(StringArray::from(rows.iter().map(|r| label_name('g', r.rest[2])).collect::<Vec<_>>())));
+    }
+    RecordBatch::try_new(Arc::new(Schema::new(fields)), cols).expect("ingest batch")
 }
-fn shard_id(metric: &str, ts: i64) -> String {
-    let k = ShardKey::new(0, metric, ts);
+
+/// the shard id `Ingester::compute_shard_id` derives from the first row
+fn shard_id_string(metric: u64, ts: i64) -> String {
+    let k = ShardKey::new(0, &metric_name(metric), ts);
     format!("shard-{:x}", u64::from_be_bytes(k.to_bytes()[0..8].try_into().unwrap()))
 }
-fn main() {
-    let rt = tokio::runtime::Builder::new_current_thread().enable_all().build().unwrap();
-    {
-        let b1 = batch(vec![100, 100, 200], vec!["cpu", "cpu", "cpu"], vec!["h1", "h2", "h1"], vec![1, 2, 3]);
-        let b2 = batch(vec![100, 100, 200], vec!["cpu", "cpu", "cpu"], vec!["h1", "h2", "h1"], vec![1, 2, 3]);
-        let r = cardinalsin::query::verif::dedup_batches(vec![b1, b2]).unwrap();
-        println!("DEDUP direct (Utf8):\n{}", arrow::util::pretty::pretty_format_batches(&r).unwrap());
+fn new_shard_name(n: u32) -> String {
+    format!("new{}", n)
+}
+fn phase_of(s: &str) -> SplitPhase {
+    match s {
+        "prep" => SplitPhase::Preparation,
+        "dual" => SplitPhase::DualWrite,
+        "backfill" => SplitPhase::Backfill,
+        "cutover" => SplitPhase::Cutover,
+        _ => SplitPhase::Cleanup,
     }
-    rt.block_on(async {
-        let store: Arc<dyn object_store::ObjectStore> = Arc::new(InMemory::new());
-        let meta: Arc<dyn MetadataClient> = Arc::new(LocalMetadataClient::new());
-        let sc = StorageConfig::default();
-        let mut cfg = IngesterConfig { flush_row_count: 1, ..Default::default() };
-        cfg.wal.enabled = false;
-        let ing = Ingester::new(cfg, store.clone(), meta.clone(), sc.clone(), MetricSchema::default_metrics());
-        let base: i64 = 1_700_000_000_000_000_000;
-        let sid = shard_id("cpu", base);
-        println!("sid {}", sid);
-        meta.start_split(&sid, vec!["new-a".into(), "new-b".into()], (base + 100).to_be_bytes().to_vec()).await.unwrap();
-        meta.update_split_progress(&sid, 0.0, SplitPhase::DualWrite).await.unwrap();
-        let b = batch(vec![base + 50, base + 50, base + 100, base + 150], vec!["cpu"; 4], vec!["h1", "h2", "h1", "h1"], vec![1, 2, 3, 4]);
-        println!("write: {:?}", ing.write(b).await);
-        for c in meta.list_chunks().await.unwrap() { println!("chunk {} rows {}", c.chunk_path, c.row_count); }
-        let qn = QueryNode::new(QueryConfig::default(), store.clone(), meta.clone(), sc.clone()).await.unwrap();
-        for sql in [
-            format!("SELECT * FROM metrics WHERE timestamp >= {} AND timestamp <= {}", base, base + 1000),
-            format!("SELECT COUNT(*) FROM metrics WHERE timestamp >= {} AND timestamp <= {}", base, base + 1000),
-            format!("SELECT SUM(value_i64) FROM metrics WHERE timestamp >= {} AND timestamp <= {}", base, base + 1000),
-            format!("SELECT timestamp, value_i64 FROM metrics WHERE timestamp >= {} AND timestamp <= {}", base, base + 1000),
-            format!("SELECT timestamp, metric_name, COUNT(*) AS c FROM metrics WHERE timestamp >= {} AND timestamp <= {} GROUP BY timestamp, metric_name", base, base + 1000),
-        ] {
-            let r = qn.query(&sql).await;
-            match r {
-                Ok(bs) => { println!("Q {}\n{}", sql, arrow::util::pretty::pretty_format_batches(&bs).unwrap()); for b in &bs { println!("  schema {:?}", b.schema().fields().iter().map(|f| (f.name().clone(), f.data_type().clone())).collect::<Vec<_>>()); } }
-                Err(e) => println!("Q {} ERR {:?}", sql, e),
+}
+
+struct Pipeline {
+    store: Arc<dyn ObjectStore>,
+    meta: Arc<dyn MetadataClient>,
+    ing: Ingester,
+    sc: StorageConfig,
+    qn: Option<QueryNode>,
+}
+
+fn new_pipeline(c: &HCase) -> Pipeline {
+    let store: Arc<dyn ObjectStore> = Arc::new(InMemory::new());
+    let meta: Arc<dyn MetadataClient> = if c.object_store_backend {
+        Arc::new(ObjectStoreMetadataClient::new(
+            store.clone(),
+            ObjectStoreMetadataConfig { bucket: "b".into(), metadata_prefix: "metadata/".into(), enable_cache: false, allow_unsafe_overwrite: false },
+        ))
+    } else {
+        Arc::new(LocalMetadataClient::new())
+    };
+    let sc = StorageConfig::default();
+    let mut cfg = IngesterConfig { flush_row_count: c.flush_rows, flush_size_bytes: usize::MAX / 4, max_buffer_size_bytes: usize::MAX / 4, ..Default::default() };
+    cfg.wal.enabled = false;
+    let ing = Ingester::new(cfg, store.clone(), meta.clone(), sc.clone(), MetricSchema::default_metrics());
+    Pipeline { store, meta, ing, sc, qn: None }
+}
+
+async fn force_flush(p: &Pipeline) {
+    // the shutdown branch of run_flush_timer flushes whatever is buffered
+    p.ing.shutdown_token().cancel();
+    p.ing.run_flush_timer().await;
+}
+
+async fn dump(p: &Pipeline) -> (String, Vec<(Option<u32>, Vec<Row>)>) {
+    let buf = p.ing.buffer_stats().await.row_count;
+    let mut chunks: Vec<(Option<u32>, Vec<Row>)> = Vec::new();
+    let mut listed = p.meta.list_chunks().await.unwrap_or_default();
+    listed.sort_by(|a, b| a.chunk_path.cmp(&b.chunk_path));
+    for e in listed {
+        let path = object_store::path::Path::from(e.chunk_path.as_str());
+        let bytes = p.store.get(&path).await.expect("chunk object").bytes().await.expect("chunk bytes");
+        let reader = parquet::arrow::arrow_reader::ParquetRecordBatchReaderBuilder::try_new(bytes).expect("parquet").build().expect("reader");
+        let mut rows = Vec::new();
+        for b in reader {
+            rows.extend(canon_rows(&b.expect("parquet batch")).2);
+        }
+        let shard = e.chunk_path.split('/').find_map(|seg| seg.strip_prefix("shard=new")).map(|s| s.parse::<u32>().unwrap_or(0));
+        chunks.push((shard, rows));
+    }
+    let mut strs: Vec<String> = chunks
+        .iter()
+        .map(|(s, rows)| format!("{}>{}", s.map(|x| x.to_string()).unwrap_or_else(|| "-".into()), rows.iter().map(show_row).collect::<Vec<_>>().join(";")))
+        .collect();
+    strs.sort();
+    (format!("buf={}#{}", buf, strs.join("/")), chunks)
+}
+
+fn sql_of(lo: i64, hi: i64, metric: Option<u64>, post: &str) -> String {
+    let mut w = format!("timestamp >= {} AND timestamp <= {}", lo, hi);
+    if let Some(m) = metric {
+        w.push_str(&format!(" AND metric_name = '{}'", metric_name(m)));
+    }
+    match post {
+        "count" => format!("SELECT COUNT(*) AS c FROM metrics WHERE {}", w),
+        "sum1" => format!("SELECT SUM(value_i64) AS s FROM metrics WHERE {}", w),
+        "cbk" => format!("SELECT timestamp, metric_name, COUNT(*) AS c FROM metrics WHERE {} GROUP BY timestamp, metric_name", w),
+        "cbm" => format!("SELECT metric_name, COUNT(*) AS c FROM metrics WHERE {} GROUP BY metric_name", w),
+        raw => {
+            let f: Vec<char> = raw.chars().collect();
+            let mut cols = Vec::new();
+            if f[3] == '1' { cols.push("timestamp"); }
+            if f[4] == '1' { cols.push("metric_name"); }
+            if f[5] == '1' { cols.push("host"); cols.push("value_i64"); }
+            format!("SELECT {} FROM metrics WHERE {}", cols.join(", "), w)
+        }
+    }
+}
+
+async fn run_query(p: &mut Pipeline, lo: i64, hi: i64, metric: Option<u64>, post: &str) -> Result<Vec<Row>, String> {
+    if p.qn.is_none() {
+        let qn = QueryNode::new(QueryConfig::default(), p.store.clone(), p.meta.clone(), p.sc.clone()).await.map_err(|e| e.to_string())?;
+        // bind `metrics` to the stored chunks once, so that a later window without
+        // any chunk sees an empty table of the data's schema (not the default one)
+        let _ = qn.query(&format!("SELECT COUNT(*) FROM metrics WHERE timestamp >= {} AND timestamp <= {}", lo.saturating_sub(1_000_000), hi.saturating_add(1_000_000))).await;
+        p.qn = Some(qn);
+    }
+    let sql = sql_of(lo, hi, metric, post);
+    let bs = p.qn.as_ref().unwrap().query(&sql).await.map_err(|e| format!("{} [{}]", e, sql))?;
+    let mut rows = Vec::new();
+    for b in &bs {
+        rows.extend(canon_rows(b).2);
+    }
+    Ok(rows)
+}
+
+/// What the harness itself expects (independent of the model): routing of each
+/// accepted dual-write, and the set of everything written.
+#[derive(Default)]
+struct Expect {
+    splits: BTreeMap<u32, (String, Vec<u32>, Vec<u8>)>, // sid -> phase, new shards, point
+    new_rows: BTreeMap<u32, Vec<Row>>,
+    all_rows: Vec<Row>,
+    exact: bool, // false once an op ran whose effect the simple expectation does not describe
+}
+
+struct HOutcome {
+    impl_out: String,
+    bad: Vec<(String, String)>, // (class, what)
+    queries: u64,
+}
+
+/// Runs the history on the real code.  `model_toks`: the model's tokens (for
+/// classifying query violations with the extracted classifier), if available.
+fn run_hcase(rt: &tokio::runtime::Runtime, c: &HCase, ops: &[Op], model_toks: Option<&[String]>, report: &mut Report) -> HOutcome {
+    let mut a = new_pipeline(c); // split planted
+    let mut b = new_pipeline(c); // same writes, no split
+    let has_q = ops.iter().any(|o| matches!(o, Op::Q { .. }));
+    let mut exp = Expect { exact: true, ..Default::default() };
+    let mut toks: Vec<String> = Vec::new();
+    let mut bad: Vec<(String, String)> = Vec::new();
+    let mut queries = 0u64;
+    let sid_str = |sid: u32| shard_id_string(*c.shard_metric.get(&sid).unwrap_or(&1), c.base);
+    for (i, op) in ops.iter().enumerate() {
+        let tok = match op {
+            Op::S { sid, news, point } => {
+                let r = catch(AssertUnwindSafe(|| rt.block_on(a.meta.start_split(&sid_str(*sid), news.iter().map(|n| new_shard_name(*n)).collect(), point.clone()))));
+                exp.splits.insert(*sid, ("prep".into(), news.clone(), point.clone()));
+                rc(&r)
+            }
+            Op::P { sid, phase } => {
+                let r = catch(AssertUnwindSafe(|| rt.block_on(a.meta.update_split_progress(&sid_str(*sid), 0.5, phase_of(phase)))));
+                if let Some(s) = exp.splits.get_mut(sid) {
+                    s.0 = phase.to_string();
+                }
+                rc(&r)
+            }
+            Op::C { sid } => {
+                let r = catch(AssertUnwindSafe(|| rt.block_on(a.meta.complete_split(&sid_str(*sid)))));
+                exp.splits.remove(sid);
+                rc(&r)
+            }
+            Op::W { sid, schema, rows } => {
+                let batch = ingest_batch(*schema, rows);
+                let actual_sid = shard_id_string(rows[0].metric.unwrap(), rows[0].ts.unwrap());
+                assert_eq!(actual_sid, sid_str(*sid), "generator: batch does not belong to its logical shard");
+                let r = catch(AssertUnwindSafe(|| rt.block_on(a.ing.write(batch.clone()))));
+                if has_q {
+                    let _ = catch(AssertUnwindSafe(|| rt.block_on(b.ing.write(batch))));
+                }
+                // independent expectation
+                exp.all_rows.extend(rows.iter().cloned());
+                let dual = exp.splits.get(sid).filter(|s| s.0 == "dual" || s.0 == "backfill").cloned();
+                let mut expect_tok = "ok".to_string();
+                if let Some((_, news, point)) = dual {
+                    report.bump("R.write.dual_path");
+                    if ts_kind(*schema) != "i" {
+                        expect_tok = "err1".into();
+                        report.bump("R.write.dual_rejected_timestamp_type");
+                    } else if point.len() != 8 {
+                        expect_tok = "err2".into();
+                        report.bump("R.write.dual_bad_split_point");
+                    } else {
+                        let sp = i64::from_be_bytes(point.clone().try_into().unwrap());
+                        let lo: Vec<Row> = rows.iter().filter(|r| r.ts.unwrap() < sp).cloned().collect();
+                        let up: Vec<Row> = rows.iter().filter(|r| r.ts.unwrap() >= sp).cloned().collect();
+                        if rows.iter().any(|r| r.ts.unwrap() == sp) { report.bump("R.row.at_split_point"); }
+                        if !lo.is_empty() { report.bump("R.side.lower_nonempty"); }
+                        if !up.is_empty() { report.bump("R.side.upper_nonempty"); }
+                        if !lo.is_empty() {
+                            match news.first() {
+                                Some(s) => exp.new_rows.entry(*s).or_default().extend(lo),
+                                None => expect_tok = "panic".into(),
+                            }
+                        }
+                        if expect_tok == "ok" && !up.is_empty() {
+                            match news.get(1) {
+                                Some(s) => exp.new_rows.entry(*s).or_default().extend(up),
+                                None => expect_tok = "panic".into(),
+                            }
+                        }
+                        if expect_tok == "panic" { report.bump("R.write.dual_missing_new_shard"); }
+                    }
+                } else {
+                    report.bump("R.write.single_path");
+                }
+                let t = rc(&r);
+                if t != expect_tok {
+                    bad.push(("".into(), format!("op {}: write returned {} but the routing rule gives {}", i, t, expect_tok)));
+                }
+                t
+            }
+            Op::F => {
+                rt.block_on(force_flush(&a));
+                if has_q {
+                    rt.block_on(force_flush(&b));
+                }
+                "ok".to_string()
+            }
+            Op::X => {
+                let (s, chunks) = rt.block_on(dump(&a));
+                // oracle: per-shard row multisets
+                let mut got_new: BTreeMap<u32, Vec<Row>> = BTreeMap::new();
+                let mut got_old: Vec<Row> = Vec::new();
+                for (sh, rows) in &chunks {
+                    match sh {
+                        Some(n) => got_new.entry(*n).or_default().extend(rows.iter().cloned()),
+                        None => got_old.extend(rows.iter().cloned()),
+                    }
+                }
+                let mut shards: Vec<u32> = got_new.keys().chain(exp.new_rows.keys()).cloned().collect();
+                shards.sort();
+                shards.dedup();
+                for sh in shards {
+                    let g = show_rows_sorted(got_new.get(&sh).map(|v| v.as_slice()).unwrap_or(&[]));
+                    let e = show_rows_sorted(exp.new_rows.get(&sh).map(|v| v.as_slice()).unwrap_or(&[]));
+                    if g != e {
+                        bad.push(("".into(), format!("new shard {} holds {{{}}} but the rows on its side of the split point are {{{}}}", sh, g, e)));
+                    }
+                }
+                let buffered = s.starts_with("buf=0#");
+                if buffered && exp.exact && show_rows_sorted(&got_old) != show_rows_sorted(&exp.all_rows) {
+                    bad.push(("".into(), format!("old shard holds {{{}}} but {{{}}} was written", show_rows_sorted(&got_old), show_rows_sorted(&exp.all_rows))));
+                }
+                s
+            }
+            Op::Q { lo, hi, metric, post } => {
+                queries += 1;
+                let ra = catch(AssertUnwindSafe(|| rt.block_on(run_query(&mut a, *lo, *hi, *metric, post))));
+                let rb = catch(AssertUnwindSafe(|| rt.block_on(run_query(&mut b, *lo, *hi, *metric, post))));
+                let active = exp.splits.values().any(|s| s.0 == "dual" || s.0 == "backfill");
+                let sa = match &ra { Ok(Ok(rows)) => show_rows_sorted(rows), Ok(Err(e)) => format!("ERR {}", e), Err(p) => format!("PANIC {}", p) };
+                let sb = match &rb { Ok(Ok(rows)) => show_rows_sorted(rows), Ok(Err(e)) => format!("ERR {}", e), Err(p) => format!("PANIC {}", p) };
+                // classification by the extracted classifier (model token: rows#class#ref#dedup)
+                let class = model_toks
+                    .and_then(|t| t.get(i))
+                    .and_then(|t| t.split('#').nth(1).map(|s| s.to_string()))
+                    .unwrap_or_else(|| fallback_class(post, &exp.all_rows, *lo, *hi, *metric));
+                report.bump(&format!("E.query.post.{}", if post.starts_with("raw") { "raw" } else { post }));
+                report.bump(&format!("E.query.class.{}", class));
+                if active {
+                    report.bump("E.query.during_dual_or_backfill");
+                    if sa != sb {
+                        let cname = match class.as_str() {
+                            "aggregate" => "aggregate-inflated",
+                            "projection" => "projection-not-deduplicated",
+                            "identical" => "identical-rows-collapsed",
+                            _ => "",
+                        };
+                        bad.push((cname.into(), format!("op {}: {} during the split returns {{{}}}, without split {{{}}}", i, sql_of(*lo, *hi, *metric, post), clip(&sa), clip(&sb))));
+                    }
+                }
+                format!("{}#{}#{}#{}", sa, class, sb, active as u8)
+            }
+        };
+        toks.push(tok);
+    }
+    HOutcome { impl_out: toks.join("|"), bad, queries }
+}
+
+/// every query comes after a write that was flushed (otherwise `metrics` is the
+/// empty default table, whose schema the generated SQL does not fit)
+fn well_formed(ops: &[Op]) -> bool {
+    let mut written = false;
+    let mut flushed = false;
+    for o in ops {
+        match o {
+            Op::W { .. } => written = true,
+            Op::F => flushed = written,
+            Op::Q { .. } if !flushed => return false,
+            _ => {}
+        }
+    }
+    true
+}
+
+fn clip(s: &str) -> String {
+    if s.len() > 300 { format!("{}…", &s[..300]) } else { s.to_string() }
+}
+
+fn rc<T>(r: &Result<cardinalsin::Result<T>, String>) -> String {
+    match r {
+        Ok(Ok(_)) => "ok".into(),
+        Ok(Err(cardinalsin::Error::InvalidSchema(_))) => "err1".into(),
+        Ok(Err(cardinalsin::Error::Internal(_))) => "err2".into(),
+        Ok(Err(_)) => "err9".into(),
+        Err(_) => "panic".into(),
+    }
+}
+
+/// used only when no model runner is available
+fn fallback_class(post: &str, all: &[Row], lo: i64, hi: i64, metric: Option<u64>) -> String {
+    if !post.starts_with("raw") {
+        return "aggregate".into();
+    }
+    let f: Vec<char> = post.chars().collect();
+    if !(f[3] == '1' && f[4] == '1') {
+        return "projection".into();
+    }
+    let mut seen = HashSet::new();
+    for r in all {
+        let t = r.ts.unwrap();
+        if t < lo || t > hi || metric.map(|m| Some(m) != r.metric).unwrap_or(false) {
+            continue;
+        }
+        let key = format!("{},{},{}", t, r.metric.unwrap(), if f[5] == '1' { format!("{:?}", r.rest) } else { String::new() });
+        if !seen.insert(key) {
+            return "identical".into();
+        }
+    }
+    "none".into()
+}
+
+fn be(sp: i64) -> Vec<u8> {
+    sp.to_be_bytes().to_vec()
+}
+
+fn gen_rows(rng: &mut Rng, c_base: i64, first_metric: u64, n: usize, three: bool, report: &mut Report, pool: &mut Vec<Row>) -> Vec<Row> {
+    let mut rows = Vec::new();
+    for k in 0..n {
+        let mut r = if k > 0 && !pool.is_empty() && rng.chance(1, 6) {
+            report.bump("R.row.exact_duplicate");
+            pool[rng.below(pool.len() as u64) as usize].clone()
+        } else {
+            Row {
+                ts: Some(c_base.saturating_add(rng.range_i64(-3, 4))),
+                metric: Some(if k == 0 || rng.chance(3, 4) { first_metric } else { 1 + rng.below(3) }),
+                rest: vec![rng.range_i64(1, 3) as i128, rng.range_i64(1, 3) as i128],
+            }
+        };
+        if k == 0 {
+            r.metric = Some(first_metric);
+        }
+        r.rest.truncate(2);
+        if three {
+            r.rest.push(1);
+        }
+        rows.push(r);
+    }
+    // several series of one metric at one timestamp
+    if rows.len() >= 2 && rows[0].ts == rows[1].ts && rows[0].metric == rows[1].metric && rows[0].rest != rows[1].rest {
+        report.bump("R.batch.series_sharing_ts_and_metric");
+    }
+    pool.extend(rows.iter().cloned());
+    rows
+}
+
+fn distinct_shard_metrics(base: i64) -> Vec<u64> {
+    // metrics whose shard ids differ pairwise (the id keeps 16 bits of the metric hash)
+    let mut out: Vec<u64> = Vec::new();
+    let mut ids: HashSet<String> = HashSet::new();
+    for m in 1..40u64 {
+        if ids.insert(shard_id_string(m, base)) {
+            out.push(m);
+        }
+        if out.len() == 3 {
+            break;
+        }
+    }
+    out
+}
+
+fn gen_hcase(rng: &mut Rng, e2e: bool, report: &mut Report) -> HCase {
+    let base: i64 = if e2e {
+        1_700_000_000_000_000_000
+    } else {
+        *rng.pick(&[1_700_000_000_000_000_000, 1_700_000_000_000_000_000, 0, i64::MAX - 10, i64::MIN + 10])
+    };
+    report.bump(&format!("{}.base.{}", if e2e { "E" } else { "R" }, match base { 0 => "zero", b if b == i64::MAX - 10 => "i64_max", b if b == i64::MIN + 10 => "i64_min", _ => "realistic" }));
+    let metrics = distinct_shard_metrics(base);
+    let nsh = rng.range_usize(1, metrics.len().min(2));
+    let shard_metric: BTreeMap<u32, u64> = (0..nsh).map(|i| (i as u32 + 1, metrics[i])).collect();
+    // "noflush" cases never flush (so batches whose timestamp type the flush path
+    // rejects can be written); they use one schema throughout, because a schema
+    // change flushes the buffer
+    let noflush = !e2e && rng.chance(1, 6);
+    let noflush_schema = *rng.pick(&[1u32, 2, 3, 4, 4]);
+    let flush_rows = if noflush { 100_000 } else { rng.range_usize(1, 9) };
+    let mut ops = Vec::new();
+    let mut pool: Vec<Row> = Vec::new();
+    let mut next_new = 1u32;
+    let nops = rng.range_usize(4, 14);
+    let mut started: Vec<u32> = Vec::new();
+    for _ in 0..nops {
+        let sid = 1 + rng.below(nsh as u64) as u32;
+        let r = rng.below(100);
+        if r < 14 || (started.is_empty() && r < 40) {
+            let nn = if e2e || rng.chance(9, 10) { 2 } else { *rng.pick(&[0usize, 1, 3]) };
+            let news: Vec<u32> = (0..nn).map(|_| { next_new += 1; next_new }).collect();
+            let sp = base.saturating_add(rng.range_i64(-3, 4));
+            let point = if e2e || rng.chance(11, 12) {
+                be(sp)
+            } else {
+                report.bump("R.split_point.malformed");
+                let mut p = be(sp);
+                if rng.chance(1, 2) { p.truncate(4); } else { p.push(0); }
+                p
+            };
+            ops.push(Op::S { sid, news, point });
+            if !started.contains(&sid) { started.push(sid); }
+            // usually move straight into a dual-write phase
+            if rng.chance(4, 5) {
+                ops.push(Op::P { sid, phase: if rng.chance(1, 2) { "dual" } else { "backfill" } });
+            }
+        } else if r < 26 {
+            let phase = *rng.pick(&["prep", "dual", "dual", "backfill", "backfill", "cutover", "cleanup"]);
+            ops.push(Op::P { sid, phase });
+        } else if r < 31 {
+            ops.push(Op::C { sid });
+            started.retain(|s| *s != sid);
+        } else if r < 86 {
+            let schema = if e2e { 1 } else if noflush { noflush_schema } else { *rng.pick(&[1u32, 1, 1, 1, 2, 3]) };
+            let n = rng.range_usize(1, 5);
+            let rows = gen_rows(rng, base, shard_metric[&sid], n, schema == 3, report, &mut pool);
+            report.bump(&format!("R.write.schema{}", schema));
+            ops.push(Op::W { sid, schema, rows });
+        } else if !noflush {
+            ops.push(Op::F);
+        }
+        if e2e && rng.chance(1, 5) && ops.iter().any(|o| matches!(o, Op::W { .. })) {
+            ops.push(Op::F);
+            ops.push(gen_query(rng, base));
+        }
+    }
+    if e2e {
+        // make sure the split is active for the final block of queries in most cases
+        if rng.chance(4, 5) {
+            let sid = 1 + rng.below(nsh as u64) as u32;
+            if !started.contains(&sid) {
+                next_new += 2;
+                ops.push(Op::S { sid, news: vec![next_new - 1, next_new], point: be(base + rng.range_i64(-2, 3)) });
+            }
+            ops.push(Op::P { sid, phase: if rng.chance(1, 2) { "dual" } else { "backfill" } });
+            let n = rng.range_usize(2, 5);
+            let rows = gen_rows(rng, base, shard_metric[&sid], n, false, report, &mut pool);
+            ops.push(Op::W { sid, schema: 1, rows });
+        }
+        if ops.iter().any(|o| matches!(o, Op::W { .. })) {
+            ops.push(Op::F);
+            for _ in 0..rng.range_usize(3, 6) {
+                ops.push(gen_query(rng, base));
             }
         }
-        // Timestamp(ns) batch in dual-write
-        let schema = Arc::new(Schema::new(vec![
-            Field::new("timestamp", DataType::Timestamp(TimeUnit::Nanosecond, None), false),
-            Field::new("metric_name", DataType::Utf8, false),
-        ]));
-        let b2 = RecordBatch::try_new(schema, vec![Arc::new(TimestampNanosecondArray::from(vec![base + 7])), Arc::new(StringArray::from(vec!["cpu"]))]).unwrap();
-        println!("write ts-ns: {:?}", ing.write(b2).await);
-        println!("buffer {:?}", ing.buffer_stats().await);
+    }
+    if !noflush {
+        ops.push(Op::F);
+    }
+    ops.push(Op::X);
+    HCase { flush_rows, object_store_backend: rng.chance(1, 2), base, shard_metric, ops }
+}
+
+fn gen_query(rng: &mut Rng, base: i64) -> Op {
+    let (lo, hi) = match rng.below(4) {
+        0 => (base - 10, base + 10),
+        1 => (base - 3, base + rng.range_i64(-1, 4)),
+        2 => (base + rng.range_i64(-3, 1), base + 4),
+        _ => (base + rng.range_i64(-3, 0), base + rng.range_i64(0, 4)),
+    };
+    let metric = if rng.chance(1, 3) { Some(1 + rng.below(3)) } else { None };
+    let post = match rng.below(12) {
+        0..=3 => "raw111",
+        4 => "raw110",
+        5 => "raw101",
+        6 => "raw011",
+        7 => "raw001",
+        8 => "count",
+        9 => "sum1",
+        10 => "cbk",
+        _ => "cbm",
+    };
+    Op::Q { lo, hi, metric, post: post.to_string() }
+}
+
+/// Proof-derived corner cases that always run first.
+fn corpus() -> Vec<HCase> {
+    let base = 1_700_000_000_000_000_000i64;
+    let m = distinct_shard_metrics(base)[0];
+    let rw = |t: i64, h: i128, v: i128| Row { ts: Some(base + t), metric: Some(m), rest: vec![h, v] };
+    let sm: BTreeMap<u32, u64> = [(1u32, m)].into_iter().collect();
+    let q = |post: &str| Op::Q { lo: base - 10, hi: base + 10, metric: None, post: post.to_string() };
+    let mut cases = Vec::new();
+    // the witness of the Coq development: two series at one timestamp, a row at the split point
+    for phase in ["dual", "backfill"] {
+        cases.push(HCase {
+            flush_rows: 1, object_store_backend: phase == "backfill", base, shard_metric: sm.clone(),
+            ops: vec![
+                Op::S { sid: 1, news: vec![11, 12], point: be(base + 1) }, Op::P { sid: 1, phase },
+                Op::W { sid: 1, schema: 1, rows: vec![rw(0, 1, 10), rw(0, 2, 20), rw(1, 1, 30), rw(2, 1, 40)] },
+                Op::F, q("raw111"), q("count"), q("sum1"), q("cbk"), q("cbm"), q("raw101"), q("raw110"), Op::X,
+            ],
+        });
+    }
+    // genuine exact duplicates
+    cases.push(HCase {
+        flush_rows: 1, object_store_backend: false, base, shard_metric: sm.clone(),
+        ops: vec![
+            Op::S { sid: 1, news: vec![11, 12], point: be(base + 1) }, Op::P { sid: 1, phase: "dual" },
+            Op::W { sid: 1, schema: 1, rows: vec![rw(0, 1, 10), rw(0, 1, 10), rw(2, 1, 40)] },
+            Op::F, q("raw111"), Op::X,
+        ],
     });
+    // every phase in turn; Timestamp(ns) batch rejected by the dual-write path but kept by the old shard
+    cases.push(HCase {
+        flush_rows: 3, object_store_backend: true, base, shard_metric: sm.clone(),
+        ops: vec![
+            Op::W { sid: 1, schema: 1, rows: vec![rw(-1, 1, 1)] },
+            Op::S { sid: 1, news: vec![11, 12], point: be(base) },
+            Op::W { sid: 1, schema: 1, rows: vec![rw(-1, 1, 2), rw(0, 1, 3)] },
+            Op::P { sid: 1, phase: "dual" },
+            Op::W { sid: 1, schema: 1, rows: vec![rw(-1, 2, 4), rw(0, 2, 5), rw(1, 2, 6)] },
+            Op::W { sid: 1, schema: 2, rows: vec![rw(0, 3, 7)] },
+            Op::P { sid: 1, phase: "backfill" },
+            Op::W { sid: 1, schema: 1, rows: vec![rw(0, 1, 8)] },
+            Op::P { sid: 1, phase: "cutover" },
+            Op::W { sid: 1, schema: 1, rows: vec![rw(1, 1, 9)] },
+            Op::C { sid: 1 },
+            Op::W { sid: 1, schema: 1, rows: vec![rw(2, 1, 10)] },
+            Op::F, Op::X,
+        ],
+    });
+    // split point extremes and malformed states
+    cases.push(HCase {
+        flush_rows: 2, object_store_backend: false, base, shard_metric: sm.clone(),
+        ops: vec![
+            Op::S { sid: 1, news: vec![11, 12], point: be(i64::MIN) }, Op::P { sid: 1, phase: "dual" },
+            Op::W { sid: 1, schema: 1, rows: vec![rw(0, 1, 1), rw(1, 1, 2)] },
+            Op::S { sid: 1, news: vec![13, 14], point: be(i64::MAX) }, Op::P { sid: 1, phase: "dual" },
+            Op::W { sid: 1, schema: 1, rows: vec![rw(0, 1, 3)] },
+            Op::S { sid: 1, news: vec![15], point: be(base) }, Op::P { sid: 1, phase: "dual" },
+            Op::W { sid: 1, schema: 1, rows: vec![rw(-1, 1, 4)] },
+            Op::W { sid: 1, schema: 1, rows: vec![rw(1, 1, 5)] },
+            Op::S { sid: 1, news: vec![16, 17], point: vec![0, 0, 0, 1] }, Op::P { sid: 1, phase: "backfill" },
+            Op::W { sid: 1, schema: 1, rows: vec![rw(0, 1, 6)] },
+            Op::F, Op::X,
+        ],
+    });
+    cases
+}
+
+fn check_hcase(rt: &tokio::runtime::Runtime, c: &HCase, origin: &str, model: &mut Model, report: &mut Report, seed_tag: Value) {
+    let line = encode_h(c, &c.ops);
+    let has_dual_write = c.ops.iter().any(|o| matches!(o, Op::P { phase, .. } if *phase == "dual" || *phase == "backfill")) && c.ops.iter().any(|o| matches!(o, Op::W { .. }));
+    report.case(if has_dual_write { Some(&line) } else { None });
+    report.bump(&format!("origin.{}", origin));
+    report.bump(if c.object_store_backend { "backend.object_store" } else { "backend.in_memory" });
+    let model_out = model.ask(&line);
+    let mtoks: Option<Vec<String>> = if model.is_null() { None } else { Some(model_out.split('|').map(|s| s.to_string()).collect()) };
+    let out = run_hcase(rt, c, &c.ops, mtoks.as_deref(), report);
+    report.impl_runs += 1 + out.queries;
+    report.sample(json!({"history": clip(&line), "impl": clip(&out.impl_out), "model": clip(&model_out)}));
+    if !model.is_null() && model_out != out.impl_out {
+        let mut scratch = Report::new("scratch");
+        let shrunk = ddmin(&c.ops, &mut |cand: &[Op]| {
+            if !well_formed(cand) {
+                return false;
+            }
+            let l = encode_h(c, cand);
+            let m = model.ask(&l);
+            let mt: Vec<String> = m.split('|').map(|s| s.to_string()).collect();
+            run_hcase(rt, c, cand, Some(&mt), &mut scratch).impl_out != m
+        });
+        let sl = encode_h(c, &shrunk);
+        let sm = model.ask(&sl);
+        let smt: Vec<String> = sm.split('|').map(|s| s.to_string()).collect();
+        let so = run_hcase(rt, c, &shrunk, Some(&smt), &mut scratch);
+        report.disagreement(json!({
+            "correspondence": "Model/Dedup.v (hstep / query_state) vs Ingester::write + metadata split state + QueryNode::query",
+            "case": {"kind": "H", "seed": seed_tag, "line": line}, "impl": out.impl_out, "model": model_out,
+            "shrunk": sl, "shrunk_impl": so.impl_out, "shrunk_model": sm,
+            "oracle_failed": !out.bad.is_empty(),
+        }));
+    }
+    for (class, what) in &out.bad {
+        report.oracle_violation(class, what, json!({"kind": "H", "seed": seed_tag, "line": line}));
+    }
+}
+
+fn check_dcase(c: &DCase, origin: &str, model: &mut Model, report: &mut Report, seed_tag: Value) {
+    let (line, out, bad) = run_dcase(c, None);
+    let nontrivial = c.batches.iter().filter(|b| !b.drop_ts && !b.drop_metric && b.ts_name == "timestamp" && b.metric_name == "metric_name").map(|b| b.rows.len()).sum::<usize>() >= 2;
+    let key = format!("{:?}{:?}{}", c.ts_type, c.str_type, line);
+    report.case(if nontrivial { Some(key.as_str()) } else { None });
+    report.bump(&format!("origin.{}", origin));
+    report.impl_runs += 1;
+    let (differs, model_out) = model.differs(&line, &out);
+    report.sample(json!({"dedup_case": clip(&line), "types": format!("{:?}/{:?}", c.ts_type, c.str_type), "impl": clip(&out), "model": clip(&model_out)}));
+    if out != line.replacen('D', "R", 1) {
+        report.bump("D.case.rows_dropped");
+    }
+    if differs {
+        let all: Vec<usize> = (0..c.batches.len()).collect();
+        let shrunk = ddmin(&all, &mut |cand: &[usize]| {
+            let (l, o, _) = run_dcase(c, Some(cand));
+            model.differs(&l, &o).0
+        });
+        let (sl, so, sbad) = run_dcase(c, Some(&shrunk));
+        let sm = model.ask(&sl);
+        report.disagreement(json!({
+            "correspondence": "Model/Dedup.v dedup_batches vs query::dedup::dedup_batches",
+            "case": {"kind": "D", "seed": seed_tag, "types": format!("{:?}/{:?}", c.ts_type, c.str_type), "line": line},
+            "impl": out, "model": model_out, "shrunk": sl, "shrunk_impl": so, "shrunk_model": sm,
+            "oracle_failed": !bad.is_empty() || !sbad.is_empty(),
+        }));
+    }
+    for what in &bad {
+        report.oracle_violation("", what, json!({"kind": "D", "seed": seed_tag, "types": format!("{:?}/{:?}", c.ts_type, c.str_type), "line": line}));
+    }
+}
+
+fn dcorpus() -> Vec<DCase> {
+    let b = |rows: Vec<(Option<i64>, Option<u64>, Option<i128>, Option<i128>)>| DBatch { ts_name: "timestamp", metric_name: "metric_name", drop_ts: false, drop_metric: false, rows };
+    let mut out = Vec::new();
+    for (tt, st) in [(TsType::Int64, StrType::Utf8), (TsType::Int64, StrType::View), (TsType::NanosUtc, StrType::View), (TsType::Micros, StrType::Dict), (TsType::Nanos, StrType::Large)] {
+        // two series of one metric at one timestamp, present in two batches (old + new shard)
+        let rows = vec![(Some(100), Some(1), Some(1), Some(10)), (Some(100), Some(1), Some(2), Some(20)), (Some(200), Some(1), Some(1), Some(30))];
+        out.push(DCase { ts_type: tt, str_type: st, batches: vec![b(rows.clone()), b(rows.clone())] });
+        // NULL metric vs empty-string metric, NULL timestamps, a batch that is dropped entirely, an empty batch
+        out.push(DCase { ts_type: tt, str_type: st, batches: vec![
+            b(vec![(Some(100), None, Some(1), Some(1)), (Some(100), Some(0), Some(1), Some(1)), (None, Some(1), Some(1), Some(1)), (None, Some(1), Some(1), Some(1))]),
+            b(vec![(Some(100), None, Some(1), Some(1)), (Some(100), Some(0), Some(1), Some(1))]),
+            b(vec![]),
+            b(vec![(Some(100), Some(0), Some(1), None), (Some(100), Some(0), None, Some(1)), (Some(100), Some(0), Some(1), None)]),
+        ] });
+    }
+    out
+}
+
+fn main() {
+    let args = Args::parse();
+    csv_common::quiet_panics();
+    let rt = tokio::runtime::Builder::new_current_thread().enable_all().build().unwrap();
+    let mut model = Model::spawn(&args.model);
+    let mut report = Report::new("C15");
+    report.max_samples = 6;
+
+    if let Some(path) = &args.replay {
+        let txt = std::fs::read_to_string(path).expect("replay file");
+        let v: Value = serde_json::from_str(&txt).expect("replay json");
+        let v = if v.get("kind").is_some() { v } else { v["case"].clone() };
+        let kind = v["kind"].as_str().unwrap_or("");
+        let seed = v["seed"]["case_seed"].as_u64().unwrap_or(0);
+        let e2e = v["seed"]["e2e"].as_bool().unwrap_or(false);
+        let corpus_idx = v["seed"]["corpus"].as_u64();
+        let mut scratch = Report::new("scratch");
+        let failed = if kind == "D" {
+            let c = match corpus_idx { Some(i) => dcorpus()[i as usize].clone(), None => gen_dcase(&mut Rng::new(seed), &mut scratch) };
+            let (line, out, bad) = run_dcase(&c, None);
+            let m = model.ask(&line);
+            println!("case : {}\ntypes: {:?}/{:?}\nimpl : {}\nmodel: {}\noracle failures: {:?}", line, c.ts_type, c.str_type, out, m, bad);
+            !bad.is_empty() || (!model.is_null() && m != out)
+        } else {
+            let c = match corpus_idx { Some(i) => corpus()[i as usize].clone(), None => gen_hcase(&mut Rng::new(seed), e2e, &mut scratch) };
+            let line = encode_h(&c, &c.ops);
+            let m = model.ask(&line);
+            let mt: Vec<String> = m.split('|').map(|s| s.to_string()).collect();
+            let out = run_hcase(&rt, &c, &c.ops, if model.is_null() { None } else { Some(&mt) }, &mut scratch);
+            println!("case : {}\nimpl : {}\nmodel: {}\noracle failures: {:?}", line, out.impl_out, m, out.bad);
+            !out.bad.is_empty() || (!model.is_null() && m != out.impl_out)
+        };
+        std::process::exit(if failed { 1 } else { 0 });
+    }
+
+    let (n_d, n_r, n_e) = if args.thorough() { (20_000, 2_500, 500) } else { (600, 120, 45) };
+    let mut rng = Rng::new(args.seed);
+
+    for (i, c) in dcorpus().iter().enumerate() {
+        check_dcase(c, "corpus", &mut model, &mut report, json!({"corpus": i}));
+    }
+    for (i, c) in corpus().iter().enumerate() {
+        check_hcase(&rt, c, "corpus", &mut model, &mut report, json!({"corpus": i}));
+    }
+    for _ in 0..n_d {
+        let s = rng.next_u64();
+        let c = gen_dcase(&mut Rng::new(s), &mut report);
+        check_dcase(&c, "random.dedup", &mut model, &mut report, json!({"case_seed": s}));
+    }
+    for _ in 0..n_r {
+        let s = rng.next_u64();
+        let c = gen_hcase(&mut Rng::new(s), false, &mut report);
+        check_hcase(&rt, &c, "random.routing", &mut model, &mut report, json!({"case_seed": s, "e2e": false}));
+    }
+    for _ in 0..n_e {
+        let s = rng.next_u64();
+        let c = gen_hcase(&mut Rng::new(s), true, &mut report);
+        check_hcase(&rt, &c, "random.end_to_end", &mut model, &mut report, json!({"case_seed": s, "e2e": true}));
+    }
+    report.notes.push(format!("model calls: {}", model.calls));
+    report.write(&args.out);
 }
